@@ -227,6 +227,10 @@ class Infeasible(Exception):
     pass
 
 
+class BudgetExhausted(Exception):
+    """the scenario's wall-clock budget ran out in the middle of a path"""
+
+
 class Explorer:
     """Owns decisions, path condition, fresh symbols and obligations for one scenario."""
 
@@ -393,7 +397,14 @@ class Explorer:
         self.cases[label] = d
         return d
 
+    def check_deadline(self):
+        """scenario wall-clock budget (see run()): also checked inside a path, before every solver call"""
+        dl = getattr(self, "_deadline", None)
+        if dl is not None and time.time() > dl:
+            raise BudgetExhausted()
+
     def feasible(self, c):
+        self.check_deadline()
         self.feas_solver.push()
         self.feas_solver.add(c)
         r = self.feas_solver.check()
@@ -415,12 +426,22 @@ class Explorer:
     def obligation(self, name, cond):
         """Check `pc => cond` now (one SMT query per path and obligation)."""
         cond = _b(cond) if not isinstance(cond, bool) else z3.BoolVal(cond)
+        self.check_deadline()
         self.covered.add(name)
         self.path_names.append(name)
         cs = simp(cond)
         if z3.is_true(cs):
             self.results.append(Obligation(name, "proved", "simplifier", 0.0, path=list(self.decisions[: self.pos])))
             return
+        if getattr(self, "candidates_first", False) and getattr(self, "candidates", None):
+            # scenario option candidates_first (opt-in, needs `candidates`): look for a counter-model among the concrete
+            # candidate inputs before asking the solvers for an arbitrary one (for obligations whose only counter-models are
+            # large, e.g. strings longer than a size threshold).  A model found here satisfies pc and Not(cond) with the
+            # candidate's values, so the obligation is genuinely refuted; as always it only counts after native replay.
+            rm0 = self.realistic_model(self.pc + [z3.Not(cond)])
+            if rm0 is not None:
+                self.results.append(Obligation(name, "failed", "z3-5.1(candidate)", 0.0, model=rm0, path=list(self.decisions[: self.pos])))
+                return
         if getattr(self, "slice_pc", False):
             # scenario option slice_pc (opt-in): first try with only the hypotheses connected to the goal through shared
             # uninterpreted symbols. Dropping hypotheses only weakens the query: unsat there is a proof; any other answer is
@@ -616,6 +637,7 @@ class Explorer:
             if time.time() - t0 > budget:
                 self.undecided_paths.append(f"time budget {int(budget)}s exhausted after {self.paths} paths")
                 break
+            self._deadline = t0 + budget
             if getattr(self, "stop_on_failure", False) and any(o.status == "failed" and o.model is not None for o in self.results):
                 break  # scenario option stop_on_failure (opt-in): a counter-model exists already; the verdict cannot improve
             prefix = self.worklist.pop()
@@ -638,6 +660,10 @@ class Explorer:
                 self.undecided_paths.append(f"escaped exception {pe!r}")
             except RecursionError:
                 self.undecided_paths.append("recursion limit")
+            except BudgetExhausted:
+                self.undecided_paths.append(f"time budget {int(budget)}s exhausted inside path {self.paths + 1}")
+                break
+        self._deadline = None
         self.wall = time.time() - t0
         return self
 
